@@ -239,6 +239,7 @@ pub struct Cli {
     pub dump_seed: Option<u64>,
     pub no_findings: bool,
     pub determinism: bool,
+    pub dump_hashes: Option<String>,
 }
 
 pub fn parse_cli(args: &[String]) -> Result<Cli, String> {
@@ -255,6 +256,7 @@ pub fn parse_cli(args: &[String]) -> Result<Cli, String> {
         dump_seed: None,
         no_findings: false,
         determinism: false,
+        dump_hashes: None,
     };
     if let Ok(t) = std::env::var("VERIF_TIER") {
         cli.thorough = t == "thorough";
@@ -280,6 +282,7 @@ pub fn parse_cli(args: &[String]) -> Result<Cli, String> {
             "--dump-seed" => cli.dump_seed = Some(val()?.parse().map_err(|_| "bad seed")?),
             "--no-findings" => cli.no_findings = true,
             "--determinism" => cli.determinism = true,
+            "--dump-hashes" => cli.dump_hashes = Some(val()?),
             s if !s.starts_with("--") && cli.property.is_empty() => cli.property = s.to_string(),
             s => return Err(format!("unknown argument {}", s)),
         }
@@ -503,6 +506,16 @@ pub fn main_with(checks: &[&dyn Check], plan: &dyn Fn(&str) -> BatchPlan, args: 
     });
     let mut recs = recs.into_inner().unwrap();
     recs.sort_by_key(|r| r.idx);
+
+    if let Some(path) = &cli.dump_hashes {
+        let mut text = String::new();
+        for r in &recs {
+            text.push_str(&format!("{} {} {:016x} {:016x} {} {}\n", r.idx, r.seed, r.outcome.log_hash, r.outcome.signature,
+                r.outcome.violation.as_ref().map(|v| v.class.as_str()).unwrap_or("-"),
+                r.outcome.known_hits.iter().map(|k| k.class.as_str()).collect::<Vec<_>>().join(",")));
+        }
+        let _ = std::fs::write(path, text);
+    }
 
     // aggregate
     let mut counters: BTreeMap<String, u64> = BTreeMap::new();
